@@ -255,7 +255,10 @@ func drawSpec(rt *rapid.T, a *adapter, maxKeys int, serializableOnly bool) *spec
 		e := &entry{idx: len(s.entries), fate: fEnabled}
 		if a.legacyURL != "" && rapid.IntRange(0, 2).Draw(rt, label+"_legacy") == 0 {
 			e.url = a.legacyURL
-			e.prefixType = rapid.SampledFrom(legacyPrefixTypes).Draw(rt, label+"_prefixtype")
+			e.prefixType = tinkpb.OutputPrefixType_RAW
+			if !a.legacyRawOnly {
+				e.prefixType = rapid.SampledFrom(legacyPrefixTypes).Draw(rt, label+"_prefixtype")
+			}
 			e.material = normalize(a.legacyURL, gen.BytesN(rt, label+"_material", a.legacyLen))
 			// key material is never duplicated inside a keyset: distinct by construction
 			for clash := true; clash; {
